@@ -236,6 +236,18 @@ def history_check(case):
                 ref = np.stack([fourier.fshift(eye[i], v) for i, v in enumerate(sv)])
                 if _maxerr(out, ref) > 1e-10:
                     seen.setdefault("history-dependence:per-trace", "lengths %r: per-trace shifts differ from single-trace calls at n=%d" % (seq, m))
+    # the same array of per-trace shifts applied to successive blocks of different lengths (negative and > n values included)
+    for n in range(a, min(b, a + 6)):
+        sv = np.array([-1.5, 2.0, -3.25, 0.4, n + 8.5])
+        keep = sv.copy()
+        for m in (n + 6, n + 31, n + 6):
+            eye5 = np.eye(m)[:5]
+            out = fourier.fshift(eye5, sv, axis=1)
+            ntr += 1
+            ref = np.stack([fourier.fshift(eye5[i], float(keep[i])) for i in range(5)])
+            if _maxerr(out, ref) > 1e-10 or not np.array_equal(sv, keep):
+                seen.setdefault("shifts-array-reused", "per-trace shifts %r reused on blocks of %d samples: result differs from single-trace calls by %.3g; shifts array afterwards %r"
+                                % (keep.tolist(), m, _maxerr(out, ref), sv.tolist()))
     return Res(list(seen.items()), o="h", tr=ntr)
 
 
